@@ -988,3 +988,28 @@ package vanguard
 //@   ensures[C12] !meta.hasTimeout ==> hdrHas(headers, "X-Server-Timeout") == old(hdrHas(headers, "X-Server-Timeout"))
 //@   ensures[C05] hdrSameExcept(headers, "Content-Type", "Content-Encoding", "Accept-Encoding", "X-Server-Timeout")
 //@   modifies mapobj(headers), #LIB0
+
+// ------------------------------------------------------------------------------------------------
+// C19: GET is accepted and issued only for side-effect-free methods.
+// noSideEffects(m): the method's options are a *descriptorpb.MethodOptions whose idempotency level
+// is NO_SIDE_EFFECTS (1); optsTag/optsVal/idemLevel are the uninterpreted views of descriptor state
+// defined by the library models of MethodDescriptor.Options and MethodOptions.GetIdempotencyLevel.
+//@ pred noSideEffects(m) = uf("optsTag", m.descriptor) == tagof(*descriptorpb.MethodOptions) && uf("optsVal", m.descriptor) != 0 && uf("idemLevel", uf("optsVal", m.descriptor)) == 1
+//@ func (connectUnaryGetClientProtocol).allowsGetRequests
+//@   requires conf != nil && conf.descriptor != nil
+//@   ensures[C19] result == noSideEffects(conf)
+//@   modifies
+//@ func (connectUnaryServerProtocol).useGet
+//@   requires op != nil && op.methodConf != nil && op.methodConf.descriptor != nil && op.request != nil
+//@   ensures[C19] result == (op.request.Method == "GET" && isA(op.server.codec, StableCodec) && noSideEffects(op.methodConf))
+//@   modifies
+//@ func (connectUnaryServerProtocol).requiresMessageToProvideRequestLine
+//@   requires op != nil && op.methodConf != nil && op.methodConf.descriptor != nil && op.request != nil
+//@   ensures[C19] result == (op.request.Method == "GET" && isA(op.server.codec, StableCodec) && noSideEffects(op.methodConf))
+//@   modifies
+//@ func (connectUnaryServerProtocol).requestLine
+//@   requires validOp(op) && op.methodConf.descriptor != nil && op.bufferPool != nil
+//@   ensures[C19] err == nil ==> (method == "GET" || method == "POST") && urlPath == op.methodConf.methodPath
+//@   ensures[C19] err == nil && method == "GET" ==> !includeBody && op.request.Method == "GET" && isA(op.server.codec, StableCodec) && noSideEffects(op.methodConf)
+//@   ensures[C19] err == nil && method == "GET" ==> len(urlPath) + len(queryParams) + 1 <= op.methodConf.maxGetURLBytes
+//@   ensures[C19] err == nil && method == "POST" ==> includeBody && queryParams == ""
